@@ -206,7 +206,9 @@ def _dfs(build, spec, stack, report, budget):
             stats["violations"].append({"key": key, "what": what, "choices": ex.choices})
         if not ex.clean or verdict.get("violations"):
             contaminated = True
-        if verdict.get("violations") and not spec.get("keep_going"):
+        known = set(spec.get("known_keys", ()))
+        if verdict.get("violations") and not spec.get("keep_going") and not all(
+                key in known for key, _what in verdict["violations"]):
             # one counterexample decides the scenario; the rest of its schedules adds nothing
             stats["stopped"] = True
             stack = []
